@@ -355,7 +355,7 @@ def finish(run, level, rule, assumptions, distinct_nontrivial=None, exhaustive=F
         for prop, vs in byprop.items():
             path = os.path.join(REPLAYDIR, "%s.%s.seed%d.json" % (prop, run.tier, run.seed))
             with open(path, "w") as f:
-                json.dump(vs[:50], f, indent=1)
+                json.dump(vs[:2000], f, indent=1)
             for v in vs[:5]:
                 log("  violation: %s %s %s :: %s" % (v.get("id"), v.get("clause"), v.get("detail", "")[:200], v.get("query", "")[:200]))
             log("VIOLATION property=%s replay=%s" % (prop, path))
